@@ -406,13 +406,24 @@ def res_name(key):
     return None if key == 'None' else key
 
 
-def make_resources(rs, handles=None):
-    from pjplan import Resource
+def make_resources(rs, handles=None, wrap=False):
+    from pjplan import Resource, IResource
     out = []
     for key, cs in rs.items():
         cal = make_calendar(cs, handles)
         n = res_name(key)
-        out.append(Resource(n) if cal is None else Resource(n, cal))
+        r = Resource(n) if cal is None else Resource(n, cal)
+        if wrap:
+            # a user-defined resource class (public extension point): same capacities, but not a `Resource`
+            class Crew(IResource):
+                def __init__(self, inner):
+                    super().__init__(inner.name)
+                    self.inner = inner
+
+                def get_available_units(self, date, task=None):
+                    return self.inner.get_available_units(date, None)
+            r = Crew(r)
+        out.append(r)
     return out
 
 
